@@ -120,6 +120,16 @@ impl Prop for C26 {
             gaps_ns.push(idle_s.min(MAX_GAP_S) * S + r.below(2) * r.below(S));
             gaps_ns.extend(vec![0; cap + range(r, 1, 3) as usize]);
         }
+        if chance(r, 3) {
+            // parameters the public API must refuse: rate x window does not fit 32 bits for the
+            // category under test only (were they accepted, the limit would wrap to a small number)
+            let w = *pick(r, &[65_536u32, 0x5555_5556, 1 << 31, 70_000]);
+            window = w;
+            for (k, x) in rates.iter_mut().enumerate() {
+                *x = if k == category { (((1u64 << 32) / w as u64) as u32).saturating_add(range(r, 1, 3) as u32).max(2) } else { range(r, 1, 3) as u32 };
+            }
+            gaps_ns = (0..range(r, 3, 12)).map(|_| *pick(r, &[0u64, 0, 1_000_000, S])).collect();
+        }
         let mut table_size = *pick(r, &[1usize, 3, 64]);
         let mut streams = vec![];
         if chance(r, 20) {
@@ -230,7 +240,7 @@ impl Prop for C26 {
         "E3 simrt-sequential"
     }
     fn expected_probes() -> Vec<&'static str> {
-        vec!["c26_limited", "c26_refill_partial", "c26_refill_to_empty", "c26_gap_over_2pow32_div_rate", "c26_subsecond_carry", "c26_slot_taken_over"]
+        vec!["c26_limited", "c26_refill_partial", "c26_refill_to_empty", "c26_gap_over_2pow32_div_rate", "c26_subsecond_carry", "c26_slot_taken_over", "c26_overflowing_parameters_refused"]
     }
 }
 
@@ -238,7 +248,22 @@ fn run(scn: &Scn) {
     simrt::start(world_cfg(scn.hash_key, FaultCfg::none()));
     // catalog: example. loaded (NOERROR/NXDOMAIN); anything else REFUSED
     let mut server = Server::new(qz::catalog_of(vec![qz::example_zone(1)]));
-    let mut p = RrlParams::new(scn.rates[0], scn.rates[1], scn.rates[2], scn.window).expect("params");
+    let fits = scn.rates.iter().all(|x| (*x as u64) * (scn.window as u64) <= u32::MAX as u64);
+    let mut p = match RrlParams::new(scn.rates[0], scn.rates[1], scn.rates[2], scn.window) {
+        Ok(p) => p,
+        Err(_) if !fits => {
+            // refused, as it must be: a bucket of more than 2^32 - 1 tokens cannot be configured
+            simrt::probe("c26_overflowing_parameters_refused");
+            simrt::finish();
+            return;
+        }
+        Err(e) => panic!("harness: RrlParams::new refused parameters that fit: {e:?}"),
+    };
+    if !fits {
+        // accepted although rate x window does not fit: the history below is judged against the
+        // true bucket (u128 arithmetic), which such a limiter cannot follow
+        simrt::probe("c26_overflowing_parameters_accepted");
+    }
     p.set_slip(scn.slip);
     p.set_size(scn.table_size).expect("size");
     server.set_rrl_params(Some(p));
